@@ -311,22 +311,37 @@ abbrev Jar := List Morsel
 
 def jarErase (j : Jar) (name : Str) : Jar := j.filter (·.key != name)
 
-/-- `set_cookie`: new jar and `none` (returned) or `some e` (raised `e`) -/
-def setCookie (j : Jar) (a : CookieArgs) : Jar × Option Err :=
+/-- what `flush` demands of every `Set-Cookie` value: `_convert_header_value` (`_VALID_HEADER_CHARS`) and
+`HTTPHeaders.add` (`_ABNF.field_value`).  Since fix dc0f039 `set_cookie` applies the same two checks itself. -/
+def sendable (s : Str) : Bool := validHeaderChars s && isFieldValue s
+
+/-- the Morsel a `set_cookie` call builds **on the side** (fix 1aefcde: nothing is stored in the jar before the
+call has succeeded), or the exception it raises.  Order of the checks as in the code: conversions, legacy value
+check, attribute check, keyword-value check, `SimpleCookie.__setitem__` (reserved / illegal key), the keyword loop
+(`CookieError` at the first non-reserved key), and last (fix dc0f039) the header the Morsel would produce is
+generated once and refused with `CookieError` unless `flush` could send it. -/
+def buildMorsel (a : CookieArgs) : Except Err Morsel :=
   match nativeStr a.name with
-  | .error e => (j, some e)
+  | .error e => .error e
   | .ok name =>
   match nativeStr a.value with
-  | .error e => (j, some e)
+  | .error e => .error e
   | .ok value =>
-    if hasCtlOrSpace value then (j, some .valueError)
+    if hasCtlOrSpace value then .error .valueError
     else if hasBadAttrChar name || optBad a.domain || optBad a.path || optBad a.samesite then
-      (j, some .cookieError)
-    else if a.kwargs.any kwBad then (j, some .cookieError)
-    else if isReserved name || !isLegalKey name then (j, some .cookieError)
+      .error .cookieError
+    else if a.kwargs.any kwBad then .error .cookieError
+    else if isReserved name || !isLegalKey name then .error .cookieError
     else
-      let r := applyKwargs (baseMorsel name value a) a.kwargs
-      (jarErase j name ++ [r.1], r.2)
+      match applyKwargs (baseMorsel name value a) a.kwargs with
+      | (_, some e) => .error e
+      | (m, none) => if sendable (outputString m) then .ok m else .error .cookieError
+
+/-- `set_cookie`: new jar and `none` (returned) or `some e` (raised `e`, jar untouched) -/
+def setCookie (j : Jar) (a : CookieArgs) : Jar × Option Err :=
+  match buildMorsel a with
+  | .ok m => (jarErase j m.key ++ [m], none)
+  | .error e => (j, some e)
 
 /-- the cookie loop of `flush`: `add_header("Set-Cookie", cookie.OutputString(None))` for every morsel;
 `_convert_header_value` raises `ValueError`, `HTTPHeaders.add` raises `HTTPInputError`. -/
